@@ -20,7 +20,7 @@ from . import lifecycle as LC
 PROP = 'C14'
 KNOWN_RESIDUE = 'C14-obj-attrs-residue-after-failed-load'
 KNOWN_INSTR = 'C14-class-left-instrumented-after-failed-load'
-ATTRS = {'Box': ('items', 'name', 'parent'), 'Leaf': ('more', 'name', 'parent', 'to')}
+ATTRS = {'Box': ('items', 'name', 'parent'), 'Leaf': ('more', 'name', 'parent', 'to'), 'Model': ('imports', 'items')}
 
 FAIL_CASES = {
     'syntax-main': {'main': 'import "lib.m" box a { leaf x -> p; } leaf % ;', 'lib.m': "leaf p; box l { leaf q -> p; }"},
@@ -57,7 +57,10 @@ def judge(obs):
         names = set()
         for text in LC.CASES[obs['case']].values():
             names |= set(re.findall(r'(?:box|leaf)\s+(\w+)', text))
-        got = {e[2] for e in inits}
+        got = {e[2] for e in inits if e[1] != 'Model'}      # the root objects have no name
+        nmodels = sum(1 for e in inits if e[1] == 'Model')
+        if nmodels != len(LC.CASES[obs['case']]):
+            out.append(('init', '%d root objects initialised for %d model files' % (nmodels, len(LC.CASES[obs['case']]))))
         if got != names:
             out.append(('init', 'initialised objects %s, model objects %s' % (sorted(got), sorted(names))))
     if obs['outcome'] == 'exception':
